@@ -455,6 +455,16 @@ func checkC13(c *Check) {
 		b, bk, en, ek := retBoolErr(info, ret)
 		return bk && !b && ek && en
 	}
+	// no records at all: the only outcome is the neutral (false, nil), with or without TLS (a host that publishes
+	// nothing is never refused and never authenticated by DANE)
+	msg0 := ""
+	for _, hs := range []bool{false, true} {
+		w := mkWorld(false, hs, -1, -1)
+		if p0, f0 := r.F.Reach(Query{From: r.Entry(), Inclusive: true, Target: func(pt Pt) bool { return r.F.IsExitPt(pt) && !falseNil(pt) }, AvoidEdge: w}); f0 {
+			msg0 = "without any TLSA record the function can refuse or authenticate (every delivery to a host without DANE records over such a connection would fail / be trusted): " + r.F.Describe(p0)
+		}
+	}
+	c.Hold("R3", "verifyDANE:no-records-neutral", r.FI.Decl.Pos(), msg0 == "" && recsParam != nil, msg0)
 	// records exist, no completed handshake: every exit is an error
 	path, f = r.F.Reach(Query{From: r.Entry(), Inclusive: true, Target: nonErr, AvoidEdge: mkWorld(true, false, -1, -1)})
 	c.Hold("R3", "verifyDANE:records-without-tls-refused", r.FI.Decl.Pos(), !f && recsParam != nil, "with TLSA records present and no completed handshake the function can return without an error (delivery over plaintext despite DANE): "+r.F.Describe(path))
@@ -653,6 +663,104 @@ func checkC13(c *Check) {
 		}
 		if total < 3 {
 			c.Fail("R5", "discoverTLSA:lookups", rd0.FI.Decl.Pos(), "undecided: expected the CNAME/AD check and the TLSA lookups")
+		}
+		// R5b: only DNSSEC-authenticated answers count, and an authenticated, non-empty answer is never dropped
+		c.Rule("R5b", "discoverTLSA: a TLSA RRset is returned only on the path where the AD flag of the lookup that produced it was tested true; an authenticated non-empty RRset is what the discovery returns", 2)
+		di := rd0.Info
+		isTLSALookup := func(info *types.Info, call *ast.CallExpr) bool {
+			if methodName(call) == "AuthLookupTLSA" {
+				return true
+			}
+			fn := callee(info, call)
+			if fn == nil || !inCone[fn] || fn == rd0.FI.Obj {
+				return false
+			}
+			// a cone helper that performs the TLSA lookup and hands (ad, recs, err) through
+			if d := c.P.DeclOf(fn); d != nil {
+				for _, c2 := range callsIn(d.Decl.Body) {
+					if methodName(c2) == "AuthLookupTLSA" {
+						return true
+					}
+				}
+			}
+			return false
+		}
+		lookups := rd0.Calls(isTLSALookup)
+		for i, lp := range lookups {
+			as, ok := lp.Node().(*ast.AssignStmt)
+			key := "discoverTLSA:tlsa" + itoa(i+1)
+			if !ok || len(as.Lhs) != 3 {
+				c.Fail("R5b", key, rd0.Pos(lp), "undecided: the TLSA lookup does not keep (ad, records, error)")
+				continue
+			}
+			adVar, recsVar, errVar := objOf(di, as.Lhs[0]), objOf(di, as.Lhs[1]), objOf(di, as.Lhs[2])
+			others := func(q Pt) bool { return q != lp && isPt(lookups)(q) }
+			returnsThem := func(q Pt) bool {
+				_, ret := rd0.F.Exit(q)
+				return ret != nil && len(ret.Results) == 2 && objOf(di, ret.Results[0]) == recsVar && recsVar != nil
+			}
+			msg := ""
+			if adVar == nil || recsVar == nil {
+				msg = "the AD flag or the records of the TLSA lookup are discarded"
+			} else {
+				if path, f := rd0.F.ReachRefined(lp, adVar, true, true, returnsThem, others); f {
+					msg = "TLSA records whose answer was not DNSSEC-authenticated (AD flag false) are used: anybody who can spoof DNS can publish records that make DANE refuse – or, with a matching key, authenticate – a server: " + rd0.F.Describe(path)
+				}
+				world := rd0.F.World(func(atom ast.Expr) (bool, bool) {
+					if id, ok := ast.Unparen(atom).(*ast.Ident); ok && objOf(di, id) == adVar {
+						return true, true // … and was authenticated
+					}
+					if errVar != nil {
+						if ns, ok := nilTest(di, atom, errVar); ok {
+							return ns == 0, true // the lookup succeeded: the atom is true iff it says "nil"
+						}
+					}
+					if sx, ok := lenZeroEdge(di, atom); ok && mentions(di, atom, recsVar) {
+						return sx != 0, true // the answer is not empty
+					}
+					return false, false
+				})
+				dropped := func(q Pt) bool { return rd0.F.IsExitPt(q) && !returnsThem(q) }
+				if path, f := rd0.F.ReachRefined2(lp, adVar, false, true, orPt(dropped, others), nil, world); f && msg == "" {
+					msg = "an authenticated, non-empty TLSA RRset is not what the discovery returns (it is dropped or replaced by another lookup): the published records are not enforced: " + rd0.F.Describe(path)
+				}
+			}
+			c.Hold("R5b", key, rd0.Pos(lp), msg == "", msg)
+		}
+		if len(lookups) < 2 {
+			c.Fail("R5b", "discoverTLSA:tlsa-lookups", rd0.FI.Decl.Pos(), "undecided: expected the TLSA lookups for the canonical and for the original name")
+		}
+		// the shortcut "no TLSA lookup at all" is taken only for hosts whose address records are not authenticated
+		for _, ap := range rd0.Calls(func(info *types.Info, call *ast.CallExpr) bool { return methodName(call) == "CheckCNAMEAD" }) {
+			as, ok := ap.Node().(*ast.AssignStmt)
+			if !ok || len(as.Lhs) != 3 {
+				c.Fail("R5b", "discoverTLSA:address-ad", rd0.Pos(ap), "undecided: the address lookup does not keep (ad, name, error)")
+				continue
+			}
+			adA, nameV, errA := objOf(di, as.Lhs[0]), objOf(di, as.Lhs[1]), objOf(di, as.Lhs[2])
+			world := rd0.F.World(func(atom ast.Expr) (bool, bool) {
+				if id, ok := ast.Unparen(atom).(*ast.Ident); ok && objOf(di, id) == adA && adA != nil {
+					return true, true
+				}
+				if errA != nil {
+					if ns, ok := nilTest(di, atom, errA); ok {
+						return ns == 0, true
+					}
+				}
+				// the host has an address: name != ""
+				if be, ok := ast.Unparen(atom).(*ast.BinaryExpr); ok && (be.Op == token.EQL || be.Op == token.NEQ) && objOf(di, be.X) == nameV && nameV != nil {
+					if sv, ok := constString(di, be.Y); ok && sv == "" {
+						return be.Op == token.NEQ, true
+					}
+				}
+				return false, false
+			})
+			skip := func(q Pt) bool {
+				_, ret := rd0.F.Exit(q)
+				return ret != nil && len(ret.Results) == 2 && isNilIdent(di, ret.Results[1])
+			}
+			path, f := rd0.F.Reach(Query{From: []Pt{ap}, Target: skip, Avoid: isPt(lookups), AvoidEdge: world})
+			c.Hold("R5b", "discoverTLSA:address-ad", rd0.Pos(ap), !f && adA != nil, "for a host whose address records ARE DNSSEC-authenticated the discovery can end with 'no records' without any TLSA lookup: DANE is switched off exactly for the zones that can publish TLSA records: "+rd0.F.Describe(path))
 		}
 	}
 	// R6: the TLSA result is bound to the connection it was looked up for. One daneDelivery serves every MX tried
